@@ -201,6 +201,7 @@ fn composites() -> Vec<Composite> {
         Composite { label: "Debug of supported_groups extension: group", reg: &iana::NAMED_GROUP, via_display: true, text: |v| format!("{:?}", TlsExtension::EllipticCurves(vec![NamedGroup(0x9999), NamedGroup(v as u16)])) },
         Composite { label: "Debug of supported_versions extension: version", reg: &iana::VERSION, via_display: true, text: |v| format!("{:?}", TlsExtension::SupportedVersions(vec![TlsVersion(0x9999), TlsVersion(v as u16)])) },
         Composite { label: "Debug of server_name extension: name type", reg: &iana::SNI_TYPE, via_display: true, text: |v| format!("{:?}", TlsExtension::SNI(vec![(SNIType(v as u8), &b"a.example"[..])])) },
+        Composite { label: "Debug of server_name extension: name type (name not UTF-8)", reg: &iana::SNI_TYPE, via_display: true, text: |v| format!("{:?}", TlsExtension::SNI(vec![(SNIType(0x63), &b"ok.example"[..]), (SNIType(v as u8), &[0xff, 0xfe, 0x41, 0xc3][..])])) },
         Composite { label: "Debug of status_request extension: status type", reg: &iana::CERT_STATUS_TYPE, via_display: false, text: |v| format!("{:?}", TlsExtension::StatusRequest(Some((CertificateStatusType(v as u8), &[7u8, 7][..])))) },
         Composite { label: "Debug of encrypted_server_name extension: group", reg: &iana::NAMED_GROUP, via_display: false, text: |v| format!("{:?}", TlsExtension::EncryptedServerName { ciphersuite: TlsCipherSuiteID(0x9999), group: NamedGroup(v as u16), key_share: &[], record_digest: &[], encrypted_sni: &[] }) },
         Composite { label: "Debug of TlsClientHelloContents: version", reg: &iana::VERSION, via_display: false, text: |v| format!("{:?}", TlsClientHelloContents { version: TlsVersion(v as u16), random: &RND, session_id: None, ciphers: vec![], comp: vec![], ext: None }) },
